@@ -774,6 +774,97 @@ def run(prog, rep, tier):
     if n514 == 0:
         raise CheckerError("R5.14: no comparison with GZ_MAX_SZ found in BlockReader::new")
 
+    # ------------------------------------------------------------ R5.16 the composite "archive|member" name is taken apart at its last separator
+    # process_path_tar names a member `<path of the archive> + SUBPATH_SEP + <member name>`.  The readers
+    # recover the two parts by splitting that string.  The path of the archive is whatever the user has on
+    # disk and may contain the separator itself (`/var/log|2023/app.tar`); the split must therefore take
+    # the *last* separator (member names are assumed free of it - the program's own convention, see
+    # TRIAGE row 88).  Splitting at the first one opens a file that does not exist and every member of
+    # such an archive prints nothing.
+    R516 = rep.rule("R5.16", "readers split the composite archive|member name at its last separator")
+    sepv = prog.facts.consts.get("s4lib::readers::blockreader::SUBPATH_SEP", {}).get("value")
+    n516 = 0
+    for sb_ in prog.bodies():
+        if not sb_.path.startswith("s4lib::readers::") or "_tests" in sb_.path:
+            continue
+        for c in sb_.live_calls():
+            nm_ = c.d.split("::")[-1]
+            if not (c.d.startswith("core::str::") or c.d.startswith("std::str::") or "str::<impl str>" in c.d or c.o.startswith("core::str::")) or nm_ not in ("split_once", "rsplit_once", "split", "rsplit", "splitn", "rsplitn", "find", "rfind", "split_terminator"):
+                continue
+            pat_ = [a for a in c.args[1:] if a[0] == "k" and a[2] == sepv]
+            if not pat_:
+                continue
+            n516 += 1
+            rep.examined(R516, "%s|%s" % (sb_.path, nm_), sample={"function": sb_.path, "line": c.line, "call": nm_, "separator": sepv})
+            if not nm_.startswith("r"):
+                rep.violation(R516, "%s|composite-name|%s" % (sb_.path, nm_), "%s (line %d) takes the composite 'archive%smember' name apart with %s(), i.e. at the FIRST separator; an archive whose own path contains '%s' "
+                              "(a directory such as 'logs%s2023') is then looked up under a truncated path and none of its members is printed" % (sb_.path.split("::")[-1], c.line, sepv, nm_, sepv, sepv))
+    if n516 < 2:
+        raise CheckerError("R5.16: %d splits of the composite name found in the readers (BlockReader::new and decompress_to_ntf each have one); separator constant %r" % (n516, sepv))
+
+    # ------------------------------------------------------------ R5.17 the reported size of a compressed file is its decoded size, for text and records alike
+    # BlockReader::filesz() is the size every reader plans with (number of blocks, end of file, the
+    # divisibility test that selects a record layout).  Its match on (file type, container) must return,
+    # for each container that is decoded while reading, a different field than for a plain file, and
+    # the same field for Text and for FixedStruct files.
+    R517 = rep.rule("R5.17", "BlockReader::filesz() returns the decoded size for every decoded container, alike for text and record files")
+    fzb = prog.body(BR + "::filesz")
+    ftn = [v_["name"] for v_ in prog.facts.adts["s4lib::common::FileType"]["variants"]]
+    atn = [v_["name"] for v_ in prog.facts.adts["s4lib::common::FileTypeArchive"]["variants"]]
+    tab517 = {}
+    for fi_, fnm_ in enumerate(ftn):
+        for ai_, anm_ in enumerate(atn):
+            bb_ = 0
+            seen_ = set()
+            leaf_ = None
+            while bb_ not in seen_:
+                seen_.add(bb_)
+                ret_ = [st for st in fzb.stmts(bb_) if st[0] == "=" and st[1] == [0]]
+                if ret_:
+                    rv_ = ret_[0][2]
+                    if rv_[0] == "use" and rv_[1][0] in ("cp", "mv") and isinstance(rv_[1][1][-1], list) and rv_[1][1][-1][0] == ".":
+                        leaf_ = rv_[1][1][-1][2]
+                    else:
+                        leaf_ = "?" + str(rv_)[:40]
+                    break
+                t_ = fzb.term(bb_)
+                if t_[0] == "goto":
+                    bb_ = t_[1]
+                    continue
+                if t_[0] != "switch":
+                    break   # panic arm (Unparsable) or something else: no size for this pair
+                dl_ = op_local(t_[1])
+                src_ = [st for st in fzb.stmts(bb_) if st[0] == "=" and st[1] == [dl_] and st[2][0] == "discr"]
+                if not src_:
+                    raise CheckerError("R5.17: BlockReader::filesz switches on something that is not an enum discriminant (block %d)" % bb_)
+                pl_ = src_[0][2][1]
+                last_ = pl_[-1]
+                if isinstance(last_, list) and last_[0] == "." and last_[2] == "filetype":
+                    want_ = fi_
+                elif isinstance(last_, list) and last_[0] == "." and last_[2] == "archival_type":
+                    want_ = ai_
+                else:
+                    raise CheckerError("R5.17: BlockReader::filesz matches on %s" % str(pl_)[:80])
+                nxt_ = [tb for v_, tb in t_[2] if v_ == want_]
+                bb_ = nxt_[0] if nxt_ else t_[3]
+            if leaf_ is not None:
+                tab517[(fnm_, anm_)] = leaf_
+    rep.examined(R517, BR + "::filesz|table", sample={"returned_field": {"%s/%s" % k_: v_ for k_, v_ in sorted(tab517.items())}})
+    if len(tab517) < 12 or ("Text", "Normal") not in tab517:
+        raise CheckerError("R5.17: only %d (file type, container) pairs tabulated from BlockReader::filesz" % len(tab517))
+    plain_ = tab517[("Text", "Normal")]
+    for anm_ in atn:
+        if anm_ == "Normal":
+            continue
+        t1_, t2_ = tab517.get(("Text", anm_)), tab517.get(("FixedStruct", anm_))
+        rep.examined(R517, BR + "::filesz|%s" % anm_, sample={"container": anm_, "Text": t1_, "FixedStruct": t2_, "plain": plain_})
+        for fnm_, tf_ in (("Text", t1_), ("FixedStruct", t2_)):
+            if tf_ is not None and tf_ == plain_:
+                rep.violation(R517, BR + "::filesz|%s/%s|on-disk-size" % (fnm_, anm_), "BlockReader::filesz() returns `%s` - the size of the file on disk - for %s files in a %s container; the readers then plan with the compressed size: "
+                              "a .%s accounting file fits no record layout ('no valid fixed struct', nothing printed), a text file is cut at the compressed length" % (tf_, fnm_, anm_, anm_.lower()))
+        if t1_ is not None and t2_ is not None and t1_ != t2_:
+            rep.violation(R517, BR + "::filesz|%s|siblings-differ" % anm_, "BlockReader::filesz() returns `%s` for Text but `%s` for FixedStruct files in a %s container" % (t1_, t2_, anm_))
+
     # ------------------------------------------------------------ R5.15 the unpacked temporary file is complete before it is handed on
     # decompress_to_ntf writes the decoded bytes through a BufWriter and returns the *path*; the journal
     # and evtx readers open it by path.  BufWriter's Drop discards write errors, so a writer that merely
